@@ -202,6 +202,8 @@ impl Db {
 
             if !in_memory {
                 config.invalidate_meta()?;
+                #[cfg(anything_verif)]
+                crate::verif::crashpoint("meta_invalidated");
             }
 
             // NB: a single indexing thread, so that the order of the documents
@@ -372,6 +374,8 @@ fn open_index(config: &crate::config::Config) -> Result<(bool, Index)> {
     }
 
     config.invalidate_meta()?;
+    #[cfg(anything_verif)]
+    crate::verif::crashpoint("meta_invalidated");
 
     if config.index_path.is_dir() {
         log::info!("removing index: {}", config.index_path.display());
